@@ -1,4 +1,5 @@
 import NetVerif.Proofs.Lemmas.Huffman
+import NetVerif.Spec.Rfc7541Huffman
 import NetVerif.Proofs.Lemmas.HuffmanAcc
 import NetVerif.Proofs.Lemmas.HuffmanStride
 /-!
@@ -33,6 +34,12 @@ def Bytes (s : List Nat) : Prop := ∀ b ∈ s, b < 256
 
 theorem table_lengths : Gen.Huffman.codes.length = 256 ∧ Gen.Huffman.lens.length = 256 :=
   Lemmas.Huffman.table_lengths
+
+/-- **The code is the RFC 7541 Appendix B code** (the literal in `Spec/Rfc7541Huffman.lean`), not merely
+some prefix code on which encoder and decoder agree. -/
+theorem rfc_table : Gen.Huffman.codes = Spec.Rfc7541.codes ∧ Gen.Huffman.lens = Spec.Rfc7541.lens ∧
+    Gen.Huffman.eosCode = Spec.Rfc7541.eosCode ∧ Gen.Huffman.eosNBits = Spec.Rfc7541.eosLen := by
+  decide +kernel
 
 /-- Every code fits its length; lengths are between 5 and 30 (so `AppendHuffmanString`'s
 "less than 32 valid bits can always accommodate another code" holds). -/
